@@ -709,6 +709,57 @@ func (r *refRun) eval(f *sx, e *env) rval {
 			abort("funcall of a non-function")
 		}
 		return r.call(c, vs[1:])
+	case "prog", "prog*":
+		return r.inBlock("nil", e, func(be *env) rval {
+			ne := &env{parent: be, vars: map[string]rval{}}
+			for _, b := range a[0].List {
+				var v rval
+				name := b.Atom
+				if b.IsL {
+					name = b.List[0].Atom
+					if 1 < len(b.List) {
+						if h == "prog" {
+							v = primary(r.eval(b.List[1], be))
+						} else {
+							v = primary(r.eval(b.List[1], ne))
+						}
+					}
+				}
+				ne.vars[name] = v
+			}
+			r.tagbody(a[1:], ne)
+			return nil
+		})
+	case "loop":
+		return r.inBlock("nil", e, func(be *env) rval {
+			for iter := 0; iter < 60; iter++ {
+				r.body(a, be)
+			}
+			abort("loop too long")
+			return nil
+		})
+	case "mapc", "maplist", "mapl":
+		vs := r.args(a, e)
+		c, ok := vs[0].(*rclosure)
+		if !ok {
+			abort("%s of a non-function", h)
+		}
+		items, _ := vs[1].(rlist)
+		var out rlist
+		for i, it := range items {
+			arg := it
+			if h != "mapc" {
+				arg = items[i:]
+			}
+			out = append(out, primary(r.call(c, []rval{arg})))
+		}
+		if h == "maplist" {
+			if len(out) == 0 {
+				return nil
+			}
+			return out
+		}
+		return vs[1]
 	case "mapcar":
 		vs := r.args(a, e)
 		c, ok := vs[0].(*rclosure)
